@@ -12,7 +12,10 @@ sys.path.insert(0, os.path.dirname(os.path.abspath(__file__)))
 import vassemble  # noqa: E402
 
 VERIF = os.path.dirname(os.path.dirname(os.path.abspath(__file__)))
-BUILD = os.path.join(VERIF, 'build', 'v')
+# assembled units of a scratch tree (VERIF_REPO) go to their own directory, so that
+# concurrent runs against different trees never read each other's files
+_repo = os.environ.get('VERIF_REPO', '/repo')
+BUILD = os.environ.get('VERIF_VBUILD') or os.path.join(VERIF, 'build', 'v' if _repo == '/repo' else 'v-' + re.sub(r'\W+', '_', _repo).strip('_'))
 
 import enumscan  # noqa: E402
 GENERATED = {'u_c08_o2': enumscan.generate}
